@@ -899,4 +899,37 @@ theorem shiftRight_eq_iff_leading_bits (w bits x y : Nat) (hb : bits ≤ w) (hx 
       rw [Nat.testBit_lt_two_pow (Nat.lt_of_lt_of_le hx hp),
         Nat.testBit_lt_two_pow (Nat.lt_of_lt_of_le hy hp)]
 
+/-! ## Round 5: bursts (all events at one instant) -/
+
+theorem above_replicate (num : Nat) (ivl t : Int) (k : Nat) (ht : 0 < t) (hivl : 0 ≤ ivl) :
+    above num ivl (List.replicate k t) t = decide (num ≤ k) := by
+  unfold above
+  have h1 : (t :: List.replicate k t) = List.replicate (k + 1) t := by simp [List.replicate_succ]
+  rw [h1, List.getElem?_replicate]
+  by_cases h : num < k + 1
+  · have : num ≤ k := by omega
+    simp [h, ht, hivl, this]
+  · have : ¬ num ≤ k := by omega
+    simp [h, this]
+
+theorem ctrRun_burst (num : Nat) (ivl t : Int) (ht : 0 < t) (hivl : 0 ≤ ivl) :
+    ∀ (n k : Nat), ctrRun { num := num, ivl := ivl, hist := List.replicate k t } (List.replicate n t) =
+      (List.range' k n).map (fun i => decide (num ≤ i))
+  | 0, k => by simp [ctrRun]
+  | n + 1, k => by
+    have ih := ctrRun_burst num ivl t ht hivl n (k + 1)
+    simp only [List.replicate_succ, ctrRun, Counter.add, List.range'_succ, List.map_cons]
+    rw [above_replicate num ivl t k ht hivl]
+    congr 1
+
+theorem count_below (num : Nat) : ∀ n : Nat,
+    ((List.range n).filter (fun i => !decide (num ≤ i))).length = min n num
+  | 0 => by simp
+  | n + 1 => by
+    have ih := count_below num n
+    rw [List.range_succ, List.filter_append, List.length_append, ih]
+    by_cases h : num ≤ n
+    · simp [h]; omega
+    · simp [h]; omega
+
 end Agd.Ratelimit
